@@ -68,3 +68,11 @@ Theorem C07_client_table_matches_server :
   [err_interface_not_found_member; err_invalid_parameter_member; err_method_not_found_member; err_method_not_implemented_member].
 Proof. exact client_table_matches_server. Qed.
 Print Assumptions C07_client_table_matches_server.
+
+(* tie: the functions this property's model describes by hand (not by translation) still have the pinned text; an
+   edit to one of them breaks this obligation and sends the check searching for a failing input *)
+From VL Require Import ShapeFacts.
+From VLG Require Import ShapeGen.
+Theorem C07_modelled_code_is_the_pinned_text : shapes_for_C07 = true.
+Proof. exact shapes_C07_ok. Qed.
+Print Assumptions C07_modelled_code_is_the_pinned_text.
